@@ -371,7 +371,7 @@ PHRASES = ['LEFT OUTER JOIN', 'RIGHT OUTER JOIN', 'FULL OUTER JOIN',
            'LATERAL VIEW EXPLODE', 'LATERAL VIEW INLINE', 'GO 2']
 
 
-def check_phrases(rec, rng):
+def check_phrases(rec, rng, allkw):
     """A multi-word keyword with one inner blank removed is not that
     keyword: the text must not come back as one token."""
     for ph in PHRASES:
@@ -381,6 +381,8 @@ def check_phrases(rec, rng):
                 + words[cut] + words[cut + 1] \
                 + (' ' if cut + 2 < len(words) else '') \
                 + ' '.join(words[cut + 2:])
+            if ' ' not in fused and fused.upper() in allkw:
+                continue         # e.g. NOTNULL is a dictionary word itself
             spelled = rng.choice([fused, fused.lower()])
             for L, R in ((' ', ' '), ('', ''), ('(', ')')):
                 text = L + spelled + R
@@ -439,7 +441,7 @@ def shard(ctx):
     allkw = {w for w, _ in table}
     if ctx.shard % 4 == 0:
         check_fused(rec, rng, allkw)
-        check_phrases(rec, rng)
+        check_phrases(rec, rng, allkw)
     n = 0
     while ctx.running():
         n += 1
